@@ -12,8 +12,10 @@ NOT_APPLICABLE = {
 PLAN = {
     "C17": dict(
         verus=[], kani=["ports", "dc"], level="proof",
-        claim="4-port functions of Ports proved against closed-form specs for all activity patterns and times (Kani, complete)",
-        note="tree-level functions bounded in the number of devices",
+        claim="4-port functions of Ports proved against closed-form specs for all 16 activity patterns x all u32 times x all downstream assignments "
+              "(Kani, unwinding assertions on: complete). Tree level (assign_parent_relationships / find_subdevice_parent / configure_subdevice_offsets): "
+              "bounded stand-ins for N<=2 devices with symbolic link reports and N=3 chain with symbolic link delays (thorough) - labelled bounded, not counted as proved",
+        note="write_dc_parameters offset expression and the reference-clock clause (async fns) not decided here; N>3 device trees not explored",
     ),
     "C11": dict(
         verus=["wrapped"], kani=["wkc"], level="proof",
